@@ -1771,7 +1771,6 @@ func VariadicElems(v ssa.Value) []ssa.Value {
 	return out
 }
 
-
 // contradicts reports whether the facts pf of an edge into merge block c are at odds with the
 // facts in have, on a value that was computed before c was entered (so that both speak of the
 // same evaluation of it).
